@@ -47,7 +47,12 @@ def dicts(a, b):
 NESTED = ["e.jets.Select(lambda j: f(j, e))", "g(lambda q: q > e)", "e.jets.Select(lambda j: (j, e))",
           "e.jets.Select(lambda j: e[j.idx])", "(lambda q: (q, e))", "e.jets.Where(lambda j: j.pt > e[0])",
           "e.jets.Select(lambda j: j.tracks.Select(lambda q: f(q, j, e)))",
-          "e.jets.Select(lambda j: g(lambda q: (q, j)))", "f(e)", "(e, e.x)"]
+          "e.jets.Select(lambda j: g(lambda q: (q, j)))", "f(e)", "(e, e.x)",
+          # nested lambdas that re-use the enclosing parameter's name: emitted as written, not
+          # alpha-renamed (seed C10_g, visible on the callable path only)
+          "e.jets.Select(lambda e: e.pt)", "e.jets.Where(lambda e: e.pt > 1).Select(lambda e: e.eta)",
+          "e.jets.Select(lambda e: e.tracks.Select(lambda e: e.pt))",
+          "g(lambda e: (e, 1))", "e.jets.Select(lambda j: j.tracks.Select(lambda j: f(j)))"]
 DESIGNED = ["(e.x, e.y)[2]", "(e.x, e.y)[e.i]", "(e.x, e.y)[-1]", "(e.x, e.y)['a']", "(e.x,)[1.5]",
             "{'a': e.x}['b']", "{'a': e.x}.b", "{-1: e.x}.a", "{(1, 2): e.x, 'b': 1}.a",
             "1 if e.x else 's'", "e.x if e.c else (e.y, 1)",
